@@ -144,6 +144,22 @@ func NewJobWithSubGroups(uid string, queue string, preemptible bool, priority in
 	return j
 }
 
+// NewJobWithTopology is NewJob (preemptible, priority 0) for a PodGroup with a topology constraint.
+func NewJobWithTopology(uid string, queue string, minMember int32, tc enginev2alpha2.TopologyConstraint, vm *resource_info.ResourceVectorMap, tasks ...*pod_info.PodInfo) *podgroup_info.PodGroupInfo {
+	j := podgroup_info.NewPodGroupInfoWithVectorMap(common_info.PodGroupID(uid), vm)
+	pg := &enginev2alpha2.PodGroup{ObjectMeta: metav1.ObjectMeta{Name: uid, Namespace: "ns", UID: types.UID(uid)}}
+	pg.Spec.Queue = queue
+	pg.Spec.MinMember = minMember
+	pg.Spec.TopologyConstraint = tc
+	j.SetPodGroup(pg)
+	j.Preemptibility = enginev2alpha2.Preemptible
+	for _, t := range tasks {
+		t.Job = common_info.PodGroupID(uid)
+		j.AddTaskInfo(t)
+	}
+	return j
+}
+
 func Name(prefix string, i int) string { return fmt.Sprintf("%s%d", prefix, i) }
 
 // SetNodePods replaces the node's pod-slot capacity by a (possibly symbolic) value.
